@@ -68,11 +68,11 @@ func runC16(c *core.Ctx) {
 		return
 	}
 	allow := map[string]string{
-		dN + "AttesterHandler.processExecution":        "tick execution",
-		dN + "ProposerHandler.processExecution":        "tick execution",
-		dN + "SyncCommitteeHandler.processExecution":   "tick execution",
+		dN + "AttesterHandler.processExecution":          "tick execution",
+		dN + "ProposerHandler.processExecution":          "tick execution",
+		dN + "SyncCommitteeHandler.processExecution":     "tick execution",
 		dN + "ValidatorRegistrationHandler.HandleDuties": "ticker case",
-		dN + "VoluntaryExitHandler.HandleDuties":       "ticker case",
+		dN + "VoluntaryExitHandler.HandleDuties":         "ticker case",
 	}
 	n := 0
 	for _, f := range c.P.SourceFuncs(dutiesPkg) {
